@@ -29,8 +29,24 @@ one.  The new object starts from what the earlier configuration left: more rotat
 files than its retention count allows, a current file already longer than its
 rotation length.  The retention model follows the configuration in force: a
 rotation completed under retention count N leaves min(N, before + 1) rotated files.
+The retention count is drawn from {None, 1, 2, 3, 0}: zero is the lower boundary of the knob.
+
+External-tool family (the workflow reopen() is documented for): op "extmove" - an external log rotation
+tool (another process: no interposed call, no crash point of ours) renames the current file away, out of the directory or to
+a date-stamped name beside it; the LogFile goes on writing through its descriptor, rotations fall due and explicit
+rotate() calls arrive while there is no file at the path, until reopen() / a reconstruction creates a new one.  What the tool
+took is part of "everything written": the files it took (in the order taken), merged into the rotated files (oldest first),
+followed by the current file must still be a contiguous suffix; a rotation attempted while there is no current file
+at the path can complete nothing, so the number of retained rotated files must stay what it was.
+
+Neighbourhood family: the directory and the file have drawn names (blank, non-ASCII, an extra numeric component; with
+GLOB_NAME_P also shell-pattern characters), and in a share of the runs a SECOND live LogFile (own rotation length, no retention
+count) writes into the same directory in between the operations of the first, under an unrelated or a near-miss name
+(with SIBLING_PREFIX_P: the first log's name plus ".<word>"); its files must hold all of its own stream and the first
+log must behave as if it were alone.
 """
 import errno
+import itertools
 import os
 
 from twisted.python import logfile
@@ -44,13 +60,17 @@ LEVEL = "fault_enumeration"
 TECHNIQUE = "deterministic simulation: crash at every interposed filesystem call (+ torn writes) and a one-shot OSError at every interposed call of seeded LogFile histories, contiguous-suffix oracle"
 QUICK_RUNS = 1800
 BATCH = 10
-COMPONENTS = {"real": ["twisted.python.logfile.LogFile/BaseLogFile (write, rotate, reopen, close, listLogs, _openFile, getCurrentLog, getLog)", "twisted.python.logfile.LogReader (readLines, close)",
+COMPONENTS = {"real": ["twisted.python.logfile.LogFile/BaseLogFile (write, rotate, reopen, close, listLogs, _openFile, getCurrentLog, getLog); one or two live instances per directory", "twisted.python.logfile.LogReader (readLines, close)",
                        "the real filesystem under a scratch directory (reads; real descriptors, so dup()ed descriptors share offset and flags as in POSIX)"],
-              "stub": ["process/kernel boundary for mutating calls (detsim.fs interposer: crash points, torn writes, errno faults)"]}
+              "stub": ["process/kernel boundary for mutating calls (detsim.fs interposer: crash points, torn writes, errno faults)",
+                       "the external log rotation tool (a real os.rename of the current file done by the scenario between two operations)"]}
 RULE = ("run = one tape-drawn history of 2..14 operations (write bytes / write multi-byte text / rotate / reopen / close+reconstruct / reconfig = close + a new LogFile on the "
-        "same path with a newly drawn maxRotatedFiles in {1,2,3,None} and rotateLength in {unchanged,10,4,25,80}) with rotateLength 4..80 and "
-        "maxRotatedFiles in {None,1,2,3}; so a retention count may start over a directory holding more rotated files than it allows and a rotation length over a current file "
-        "already beyond it; the process restarted after each crash point reconstructs with the retention count it died with (3 in 7 runs) or a drawn other one; in half of the runs (browse) the history also opens readers (getCurrentLog() / getLog(k) of a rotated file that exists, up to 3 alive), "
+        "same path with a newly drawn maxRotatedFiles in {1,2,3,None,0} and rotateLength in {unchanged,10,4,25,80} / extmove = an external rotation tool renames the current file "
+        "away [in 40% of the runs, at most 2 per history; out of the directory, to <name>-<date> or to <name>.<date> beside the log; not an interposed call], after which writes, due rotations and "
+        "explicit rotate() calls happen with no file at the path until reopen()/a reconstruction / swrite = a write to the second LogFile of the directory, in the 20% of the "
+        "runs that have one [own rotateLength 4/10/25, no retention count, name unrelated or a near miss of the first log's name]) with rotateLength 4..80 and "
+        "maxRotatedFiles in {None,1,2,3,0}; the directory and file names are the plain ones in 70% of the runs, else drawn from PLACES (blank, non-ASCII, extra numeric component); so a retention count may start over a directory holding more rotated files than it allows and a rotation length over a current file "
+        "already beyond it; the process restarted after each crash point reconstructs with the retention count it died with (3 in 8 runs) or a drawn other one (0 included); in half of the runs (browse) the history also opens readers (getCurrentLog() / getLog(k) of a rotated file that exists, up to 3 alive), "
         "reads 0/1/2/10 lines from one of them and closes one of them, in between the other operations, and in 30% of those (bulk) the history starts with one write of "
         "8193..8900 bytes of numbered lines with rotateLength raised by as much, so that the first file exceeds one read buffer; checked crash-free after every op, then every crash point and torn-write length is enumerated, each followed by reconstruction "
         "and 2 more writes; then every interposed call (open/write/rename/remove/chmod) fails once with a tape-chosen errno (EIO/EACCES/ENOSPC/EBUSY/EPERM/EROFS/EMFILE/"
@@ -58,7 +78,19 @@ RULE = ("run = one tape-drawn history of 2..14 operations (write bytes / write m
         "closes and reconstructs it, and/or retries the write, finishes the history and 2 more writes; the files are checked from the fault on after every operation that "
         "entered a rotation or raised, and after the final close; non-trivial = at least one automatic rotation happened, a crash landed inside rotate() and an errno fault "
         "landed on a rename/remove inside rotate()")
-ASSUMPTIONS = ["retention model (from the statement and the constructor's documentation 'max number of log files the class creates ... removes all log files above this number'): a "
+ASSUMPTIONS = ["external-tool family: the files the tool took are part of 'everything written' and are not 'rotated files' of the LogFile: the oracle accepts any merge of the taken files "
+               "(in the order taken) into the rotated files (oldest first), followed by the current file, that is a contiguous suffix of the stream ending at the last write; where a "
+               "retention count was ever configured the oldest taken files may lie before the retained suffix and are then left out; without one, everything must be there.  A rotation "
+               "attempted while the tool has the current file and nothing has re-opened the path cannot rotate anything: the model keeps the number of rotated files as it was (fewer would "
+               "mean one of the newest N is gone although no newer one replaced it); the numbering 1..k is no longer demanded after such an attempt (the unchanged code refuses the rotation "
+               "outright, which is only one way of keeping the files).  The tool's rename is done by another process: not a crash/errno point",
+               "retention count 0 (ZERO_RETENTION_STRICT = False): by the letter of the statement no rotated file is kept; the unchanged code keeps the one it has just rotated; both 0 and 1 "
+               "are accepted, 2 or more is a violation (reported as an observation, see MUTANTS)",
+               "neighbourhood family: the second LogFile is judged by the same statement in the crash-free pass (its files hold all of its stream: 'neighbour-log-intact'); in the crash "
+               "and errno passes it only takes part (its calls are crash and fault points; a fault injected into it may make it raise, and its application carries on or replaces it). "
+               "GLOB_NAME_P = 0.2 and SIBLING_PREFIX_P = 0.4: directory/file names with shell-pattern characters and a sibling called <name>.<word> are the preconditions of two "
+               "genuine defects of the tree as first examined, both REPAIRED in /repo 8fe469f (see the constants and MUTANTS); 0.0 keeps them out and is only for dev-time comparison",
+               "retention model (from the statement and the constructor's documentation 'max number of log files the class creates ... removes all log files above this number'): a "
                "rotation completed under retention count N leaves min(N, before+1) rotated files numbered 1..; the statement does not say WHEN files beyond a newly configured smaller "
                "count go, so between such a reconfiguration and the first rotation after it any count from N up to what was there is accepted (numbering still 1..k, content still a "
                "contiguous suffix); 'without a retention count loses none' is demanded as long as no configuration of the history had a retention count; while a rotation is cut short "
@@ -82,6 +114,37 @@ LEVEL_TEXT = ("Exhaustive enumeration of crash points (incl. torn writes) and of
 
 TEXT_ALPHABET = ["a", "b", "é", "€", "\U0001f600", "\n", "z"]
 
+# ---- where the log lives: (directory name, file name); first = simplest
+PLACES = [("logs", "app.log"), ("log dir", "app.log"), ("logs", "app"), ("l\u00f6gs.d", "\u00e4pp.log"), ("logs", "app.1.log"), ("logs.2", "app log.txt")]
+PLACE_P = 0.3
+# Names containing shell-pattern characters.  On the tree as first examined LogFile.listLogs() handed the path to glob.glob() unescaped:
+# under a directory called "logs[prod]" (or for a file called "app[1].log") it found no rotated file, every rotation renamed the current
+# file over <name>.1 and all older rotated data was lost without any retention count - genuine defect, REPAIRED in /repo 8fe469f, see
+# MUTANTS.  The precondition is let into this share (0.2) of the runs; 0.0 keeps it out of every run (dev-time comparison only); the
+# other names are exercised regardless.
+GLOB_NAME_P = 0.2
+GLOB_PLACES = [("logs[prod]", "app.log"), ("logs", "app[1].log"), ("lo?s", "app.log"), ("logs", "app*.log"), ("[logs]", "app.log")]
+# A second live LogFile in the same directory (share of the runs), written in between the operations of the first.
+SIBLING_P = 0.2
+SIBLING_NAMES = ["other.log", "%s-http", "x%s", "%s2"]          # unrelated and near-miss names (%s = the first log's name)
+# Share of the sibling runs in which the sibling's name is the first log's name plus ".<word>" (access.log / access.log.ssl).  On the
+# tree as first examined listLogs() of the first log then counted <name>.<word>.<k> as its own rotated file k and rotate() raised
+# FileNotFoundError from every write once a rotation was due - genuine defect, REPAIRED in /repo 8fe469f, see MUTANTS.  The precondition
+# is let into this share (0.4) of the sibling runs; 0.0 keeps it out of every run (dev-time comparison only).
+SIBLING_PREFIX_P = 0.4
+SIBLING_PREFIX_NAMES = ["%s.http", "%s.ssl.v2"]
+# maxRotatedFiles=0: the letter of the statement ("exactly the newest N rotated files are kept") gives none; the unchanged code keeps
+# the file it has just rotated (one).  False: both are accepted (0 or 1 rotated files, more is a violation); True: exactly none.
+ZERO_RETENTION_STRICT = False
+EXTERNAL_TOOL_P = 0.4  # share of the runs in which an external rotation tool may rename the current file away
+MAX_TAKEN = 2          # external moves per history
+TAKE_KINDS = ["out", "dash-date", "dot-date"]     # out of the directory / <name>-2026092k beside the log / <name>.2026-09-2k beside the log
+
+
+def _most(keep):
+    """most rotated files a rotation completed under retention count `keep` may leave"""
+    return keep if (keep or ZERO_RETENTION_STRICT) else 1
+
 
 WRITES = ("wbytes", "wtext")
 READER_OPS = ("ropen", "rread", "rclose")
@@ -100,17 +163,35 @@ def _filler(n):
 
 def run(sim):
     rot = sim.draw_choice([10, 4, 25, 80], "rotateLength")
-    keep = sim.draw_choice([None, None, 1, 2, 3], "maxRotatedFiles")
+    keep = sim.draw_choice([None, None, 1, 2, 3, 0], "maxRotatedFiles")
     # browsing family: the log file is "rotating, BROWSABLE" - readers it hands out (getCurrentLog / getLog(n)) are opened,
     # read piecewise and closed in between the writes, rotations and reopenings, and stay alive across them.  bulk: the
     # first file additionally starts with more than one 8 kB read buffer of lines, so that a reader which has looked at a
     # few lines is genuinely in the middle of the file when the next write happens.
     browse = sim.draw_bool(0.5, "browse")
     bulk = sim.draw_choice([8300, 8193, 8900], "bulk") if browse and sim.draw_bool(0.3, "bulk?") else 0
+    # neighbourhood family: where the log lives and who else writes a log there
+    place = PLACES[0]
+    if sim.draw_bool(PLACE_P, "place?"):
+        place = sim.draw_choice(PLACES[1:], "place")
+    globby = False
+    if GLOB_NAME_P and sim.draw_bool(GLOB_NAME_P, "glob-name?"):
+        place = sim.draw_choice(GLOB_PLACES, "glob-name")
+        globby = True
+    sibling = None
+    if sim.draw_bool(SIBLING_P, "sibling?"):
+        pat = sim.draw_choice(SIBLING_NAMES, "sibling-name")
+        if SIBLING_PREFIX_P and sim.draw_bool(SIBLING_PREFIX_P, "sibling-prefix?"):
+            pat = sim.draw_choice(SIBLING_PREFIX_NAMES, "sibling-prefix")
+        sibling = ((pat % place[1]) if "%s" in pat else pat, sim.draw_choice([10, 4, 25], "sibling-rotateLength"))
+    # external-tool family: in this share of the runs an external rotation tool may take the current file away
+    ext = sim.draw_bool(EXTERNAL_TOOL_P, "external-tool?")
     nops = sim.draw_int(2, 14, "nops")
     ops = []
     ctr = 0
+    sctr = 0
     nreaders = 0
+    ntaken = 0
     if bulk:
         rot += bulk
         ops.append(("wbytes", _filler(bulk)))
@@ -121,6 +202,10 @@ def run(sim):
                 menu.append(("ropen", 3))
             if nreaders:
                 menu += [("rread", 2), ("rclose", 1)]
+        if ext and ntaken < MAX_TAKEN:
+            menu.append(("extmove", 2))
+        if sibling:
+            menu.append(("swrite", 3))
         kind = sim.draw_weighted(menu, "op")
         if kind in WRITES:
             ctr += 1
@@ -130,6 +215,13 @@ def run(sim):
             else:
                 data = "[%d]" % ctr + "".join(TEXT_ALPHABET[i % len(TEXT_ALPHABET)] for i in sim.draw_bytes(n, bytes(range(len(TEXT_ALPHABET)))))
             ops.append((kind, data))
+        elif kind == "swrite":
+            sctr += 1
+            ops.append((kind, b"(s%d)" % sctr + b"q" * sim.draw_choice([2, 0, 7, 15], "slen")))
+        elif kind == "extmove":
+            # an external rotation tool renames the current file away (if there is one at the path at that moment)
+            ntaken += 1
+            ops.append((kind, sim.draw_choice(TAKE_KINDS, "take-to")))
         elif kind == "ropen":
             nreaders += 1
             # 0 = the current log; k > 0 = the k-th newest rotated file that exists at that moment (the current log if none)
@@ -143,21 +235,23 @@ def run(sim):
             # close + a NEW LogFile on the same path with another configuration (the service was restarted with changed
             # settings): what the earlier configuration left in the directory - more rotated files than the new retention
             # count allows, a current file already longer than the new rotation length - is what the new object starts from
-            ops.append((kind, (sim.draw_choice([1, 2, 3, None], "maxRotatedFiles'"), sim.draw_choice([0, 10, 4, 25, 80], "rotateLength'"))))
+            ops.append((kind, (sim.draw_choice([1, 2, 3, None, 0], "maxRotatedFiles'"), sim.draw_choice([0, 10, 4, 25, 80], "rotateLength'"))))
         else:
             ops.append((kind, None))
     extra = [("wbytes", b"{after-crash-%d}" % i + b"p" * sim.draw_int(0, 30, "pad")) for i in range(2)]
     # the process restarted after a crash reconstructs the log with the configuration it died with ("same") or with another
     # retention count (restart with changed settings)
-    restart = sim.draw_weighted([("same", 3), (1, 1), (2, 1), (3, 1), (None, 1)], "restart-maxRotatedFiles")
+    restart = sim.draw_weighted([("same", 3), (1, 1), (2, 1), (3, 1), (None, 1), (0, 1)], "restart-maxRotatedFiles")
     sim.config = {"rotateLength": rot, "maxRotatedFiles": keep, "browse": browse, "bulk": bulk, "ops": [k for k, _ in ops],
-                  "restart": restart}
-    sim.event("history", rot, keep, " ".join("%s%d" % (k, len(d)) if k in WRITES else k if d is None else "%s%s" % (k, d) for k, d in ops))
+                  "restart": restart, "external_tool": ext, "place": (PLACES + GLOB_PLACES).index(place), "glob_name": globby,
+                  "sibling": None if sibling is None else [sibling[0].replace(place[1], "%s"), sibling[1]]}
+    sim.event("history", rot, keep, " ".join("%s%d" % (k, len(d)) if k in WRITES or k == "swrite" else k if d is None else "%s%s" % (k, d) for k, d in ops))
+    sim.event("place", sim.config["place"], "sibling", str(sim.config["sibling"]))
     F = simfs.FS(sim)
     opened = []     # every reader handed out in this run (closed for good at the end, whatever happened)
     try:
         with simfs.Installed(F, [(logfile, "os", "os"), (logfile, "open", "open")]):
-            _enumerate(sim, F, rot, keep, ops, extra, opened, restart)
+            _enumerate(sim, F, rot, keep, ops, extra, opened, restart, place, sibling)
     finally:
         for rd in opened:
             try:
@@ -227,37 +321,86 @@ def _match(segs, allb):
     return f(n, len(allb))
 
 
-def _enumerate(sim, F, rot, keep, ops, extra, opened, restart="same"):
-    d = os.path.join(F.root, "logs")
+def _merges(parts, took, lossy):
+    """The rotated files (oldest first) with the files an external tool took away (in the order taken) merged in, as
+    concatenations; the likeliest (what was taken is newer than the rotated files) first.  Where old data may be gone by
+    design (a retention count), the oldest taken files may fall outside the retained suffix and are left out."""
+    took = [t for t in took if t]
+    if not took:
+        yield b"".join(parts)
+        return
+    n = len(parts)
+    for drop in range(len(took) + 1 if lossy else 1):
+        ts = took[drop:]
+        for pos in itertools.combinations_with_replacement(range(n, -1, -1), len(ts)):
+            pos = pos[::-1]          # non-decreasing: ts[i] goes in front of parts[pos[i]]
+            out = []
+            k = 0
+            for i in range(n + 1):
+                while k < len(ts) and pos[k] == i:
+                    out.append(ts[k])
+                    k += 1
+                if i < n:
+                    out.append(parts[i])
+            yield b"".join(out)
+
+
+def _enumerate(sim, F, rot, keep, ops, extra, opened, restart="same", place=PLACES[0], sibling=None):
+    d = os.path.join(F.root, place[0])
+    name = place[1]
+    cur_path = os.path.join(d, name)
+    away_dir = os.path.join(F.root, "taken-by-the-tool")
+    sname = sibling[0] if sibling else None
+    took = []       # paths of the files the external tool took in this execution, in the order taken
 
     def wipe():
         F.reboot()
-        if os.path.isdir(d):
-            for n in os.listdir(d):
-                os.remove(os.path.join(d, n))
-        else:
-            os.mkdir(d)
+        del took[:]
+        for dd in (d, away_dir):
+            if os.path.isdir(dd):
+                for n in os.listdir(dd):
+                    os.remove(os.path.join(dd, n))
+            else:
+                os.mkdir(dd)
+
+    def read(path):
+        with open(path, "rb") as f:
+            return f.read()
+
+    def numbered(prefix, names):
+        """identifiers k of the entries <prefix>.<k>; any other <prefix>.<suffix> entry is reported"""
+        nums = []
+        for n in names:
+            suf = n[len(prefix) + 1:]
+            sim.check("rotated-name-numeric", suf.isdigit() and int(suf) > 0, "", "unexpected file %r" % n)
+            nums.append(int(suf))
+        nums.sort(reverse=True)
+        return nums
 
     def files():
-        """(numbers of rotated files sorted high..low, concatenation oldest-first incl. current)"""
-        nums = []
+        """(numbers of rotated files sorted high..low, their contents oldest first, content of the current file, contents of
+        the files the external tool took in the order taken)"""
+        mine, sibs = [], []
+        taken_here = [os.path.basename(t) for t in took if os.path.dirname(t) == d]
         for n in os.listdir(d):
-            if n.startswith("app.log."):
-                suf = n[len("app.log."):]
-                sim.check("rotated-name-numeric", suf.isdigit() and int(suf) > 0, "", "unexpected file %r" % n)
-                nums.append(int(suf))
+            if n in taken_here:
+                continue
+            if sname is not None and (n == sname or n.startswith(sname + ".")):
+                sibs.append(n)
+            elif n.startswith(name + "."):
+                mine.append(n)
             else:
-                sim.check("no-stray-file", n == "app.log", "", "unexpected file %r" % n)
-        nums.sort(reverse=True)
-        parts = []
-        for k in nums:
-            with open(os.path.join(d, "app.log.%d" % k), "rb") as f:
-                parts.append(f.read())
-        cur = b""
-        if os.path.exists(os.path.join(d, "app.log")):
-            with open(os.path.join(d, "app.log"), "rb") as f:
-                cur = f.read()
-        return nums, parts, cur
+                sim.check("no-stray-file", n == name, "", "unexpected file %r" % n)
+        nums = numbered(name, mine)
+        parts = [read("%s.%d" % (cur_path, k)) for k in nums]
+        cur = read(cur_path) if os.path.exists(cur_path) else b""
+        return nums, parts, cur, [read(t) for t in took]
+
+    def sibling_files():
+        names = [n for n in os.listdir(d) if n.startswith(sname + ".")]
+        nums = numbered(sname, names)
+        sp = os.path.join(d, sname)
+        return nums, b"".join(read("%s.%d" % (sp, k)) for k in nums) + (read(sp) if os.path.exists(sp) else b"")
 
     class Runner:
         size_wit = "auto"
@@ -279,10 +422,22 @@ def _enumerate(sim, F, rot, keep, ops, extra, opened, restart="same"):
             # without one it leaves before + 1.  Exact while nothing fails; an upper bound once a rotation was cut short.
             self.bound = 0
             self.lossy = keep is not None     # a retention count is or was configured: old data may be gone by design
+            # external-tool family: the tool has renamed the current file away and nothing has opened the path since
+            self.away = False
+            self.refusals = 0          # rotations attempted in that state
+            # neighbourhood family: the second log of the directory
+            self.sib = None
+            self.sstream = b""
             self.construct()
+            if sibling:
+                self.construct_sibling()
 
         def construct(self):
-            self.lf = self._wrap(logfile.LogFile("app.log", d, rotateLength=self.rot, maxRotatedFiles=self.keep))
+            self.away = False          # whatever comes of it, the path is opened (created if need be) from here on
+            self.lf = self._wrap(logfile.LogFile(name, d, rotateLength=self.rot, maxRotatedFiles=self.keep))
+
+        def construct_sibling(self):
+            self.sib = logfile.LogFile(sname, d, rotateLength=sibling[1])
 
         def _wrap(self, lf):
             real = lf.rotate
@@ -291,20 +446,30 @@ def _enumerate(sim, F, rot, keep, ops, extra, opened, restart="same"):
                 if self.in_write:
                     self.auto_rotations += 1
                     sim.probe("auto_rotation")
-                    if self.check and os.path.exists(os.path.join(d, "app.log")):
-                        size = os.path.getsize(os.path.join(d, "app.log"))
+                    if self.check and os.path.exists(cur_path):
+                        size = os.path.getsize(cur_path)
                         sim.check("rotated-file-at-least-rotateLength", size >= self.rot, self.size_wit,
                                   "size-triggered rotation of a %d-byte file with rotateLength=%d" % (size, self.rot))
                 self.rotations += 1
                 if self.readers:
                     sim.probe("rotation_with_live_reader")
                 before = self.bound
-                if self.keep is None:
+                if self.away:
+                    # there is no current file at the path: whatever the rotation does, it cannot produce a rotated file, and
+                    # the retained ones are still the newest there are
+                    self.refusals += 1
+                    sim.probe("rotation_attempted_while_current_file_moved_away")
+                    if before:
+                        sim.probe("rotation_attempted_while_moved_away_with_rotated_files")
+                    after = before
+                elif self.keep is None:
                     after = before + 1
                 else:
-                    after = min(self.keep, before + 1)
+                    after = min(_most(self.keep), before + 1)
                     if before > self.keep:
                         sim.probe("rotation_starts_with_more_files_than_retention")
+                    if self.keep == 0:
+                        sim.probe("rotation_under_retention_count_zero")
                 self.bound = max(before, after)      # while it is under way (and if it is cut short)
                 r = real()
                 self.bound = after
@@ -329,9 +494,17 @@ def _enumerate(sim, F, rot, keep, ops, extra, opened, restart="same"):
                 self.completed(_enc(data))
             elif kind in READER_OPS:
                 self.browse(kind, data)
+            elif kind == "swrite":
+                self.sib.write(data)
+                self.sstream += data
+            elif kind == "extmove":
+                self.take(data)
             elif kind == "rotate":
                 lf.rotate()
             elif kind == "reopen":
+                if self.away:
+                    sim.probe("reopen_after_external_move")
+                self.away = False
                 lf.reopen()
             elif kind == "reconfig":
                 lf.close()
@@ -349,18 +522,34 @@ def _enumerate(sim, F, rot, keep, ops, extra, opened, restart="same"):
                 lf.close()
                 self.construct()
 
+        def take(self, where):
+            """The external tool (another process) renames the current file away; the LogFile is not told."""
+            if not os.path.exists(cur_path):
+                sim.probe("external_move_found_no_file")
+                return
+            k = len(took) + 1
+            dest = {"out": os.path.join(away_dir, "T%d" % k),
+                    "dash-date": "%s-2026092%d" % (cur_path, k),
+                    "dot-date": "%s.2026-09-2%d" % (cur_path, k)}[where]
+            os.rename(cur_path, dest)
+            took.append(dest)
+            self.away = True
+            sim.probe("external_move")
+            if self.bound:
+                sim.probe("external_move_with_rotated_files")
+
         def browse(self, kind, arg):
             """Reader operations.  The statement says nothing about what a reader returns or whether it may raise (LogReader
             decodes with the locale's codec, so it does raise on some of the byte writes): no verdict on the reader itself -
             what is checked is that the WRITTEN data stays what the statement says while readers exist and are used."""
             try:
                 if kind == "ropen":
-                    have = sorted(int(n[len("app.log."):]) for n in os.listdir(d) if n.startswith("app.log.") and n[len("app.log."):].isdigit())
+                    have = sorted(int(n[len(name) + 1:]) for n in os.listdir(d) if n.startswith(name + ".") and n[len(name) + 1:].isdigit())
                     if arg and have:
                         rd = self.lf.getLog(have[min(arg, len(have)) - 1])
                         sim.probe("reader_of_rotated_file")
                     else:
-                        big = os.path.exists(os.path.join(d, "app.log")) and os.path.getsize(os.path.join(d, "app.log")) > 8192
+                        big = os.path.exists(cur_path) and os.path.getsize(cur_path) > 8192
                         rd = self.lf.getCurrentLog()
                         sim.probe("reader_of_current_file")
                         if big:
@@ -407,29 +596,42 @@ def _enumerate(sim, F, rot, keep, ops, extra, opened, restart="same"):
             that reconfiguration and the first rotation after it anything from the new count up to what was there is accepted"""
             return self.bound if self.keep is None else min(self.keep, self.bound)
 
-    def oracle(full_lo, full_hi_stream, wit, ctx, strict_no_loss, expect_rotated=None, at_most=None):
-        """Concatenation must equal stream[s:e] with len(full_lo) <= e <= len(full_hi_stream) — i.e. it
-        ends inside the (possibly torn) last write — and s == 0 when nothing may be lost."""
-        nums, parts, cur = files()
-        allb = b"".join(parts) + cur
+        def close_all(self):
+            self.close_readers()
+            self.lf.close()
+            if self.sib is not None:
+                self.sib.close()
+
+    def oracle(full_lo, full_hi_stream, wit, ctx, strict_no_loss, expect_rotated=None, at_most=None, lossy=True, numbering=True):
+        """Concatenation must equal stream[s:e] with len(full_lo) <= e <= len(full_hi_stream) - i.e. it
+        ends inside the (possibly torn) last write - and s == 0 when nothing may be lost.  Concatenation = rotated files oldest
+        first, the files an external tool took merged in where they fit, then the current file."""
+        nums, parts, cur, tk = files()
         hi = full_hi_stream
         ok = False
         s_found = None
-        for e in range(len(full_lo), len(hi) + 1):
-            if len(allb) <= e and hi[e - len(allb):e] == allb:
-                ok = True
-                s_found = e - len(allb)
+        allb = None
+        for cand in _merges(parts, tk, lossy):
+            cand += cur
+            if allb is None:
+                allb = cand
+            for e in range(len(full_lo), len(hi) + 1):
+                if len(cand) <= e and hi[e - len(cand):e] == cand:
+                    if not ok or e - len(cand) == 0:
+                        ok, s_found, allb = True, e - len(cand), cand
+                    break
+            if ok and (s_found == 0 or not strict_no_loss):
                 break
         sim.check("contiguous-suffix", ok, wit,
-                  lambda: "%s files %s+current hold %d bytes that are not a contiguous piece of the written stream ending at the last write (stream %d bytes): %r"
-                  % (ctx, nums, len(allb), len(full_lo), allb[-60:]))
+                  lambda: "%s files %s+current%s hold %d bytes that are not a contiguous piece of the written stream ending at the last write (stream %d bytes): %r"
+                  % (ctx, nums, " with the %d taken by the external tool" % len(tk) if tk else "", len(allb), len(full_lo), allb[-60:]))
         if strict_no_loss:
             sim.check("nothing-lost-without-retention", s_found == 0, wit, "%s %d leading bytes lost (no retention count configured); rotated=%s" % (ctx, s_found, nums))
         if at_most is not None:
             sim.check("at-most-N-rotated", len(nums) <= at_most, wit, "%s %d rotated files kept where the retention counts in force allow at most %d: %s" % (ctx, len(nums), at_most, nums))
         if expect_rotated is not None:
             lo, hi_n = expect_rotated
-            sim.check("exactly-newest-N-kept", lo <= len(nums) <= hi_n and nums == list(range(len(nums), 0, -1)), wit,
+            sim.check("exactly-newest-N-kept", lo <= len(nums) <= hi_n and (not numbering or nums == list(range(len(nums), 0, -1))), wit,
                       "%s rotated files %s, expected exactly the %s newest" % (ctx, nums, lo if lo == hi_n else "%d..%d" % (lo, hi_n)))
         return nums
 
@@ -442,12 +644,19 @@ def _enumerate(sim, F, rot, keep, ops, extra, opened, restart="same"):
         for j, op in enumerate(ops):
             R.apply(op)
             marks.append(F.n)
-            oracle(R.stream, R.stream, "crash-free", "after op %d (%s):" % (j, op[0]), not R.lossy, expect_rotated=(R.floor(), R.bound), at_most=R.cap())
+            # (numbering 1..k is not demanded once a rotation was attempted while the current file was away: the statement speaks
+            # about which files are kept, and the unchanged code's refusal is only one way of keeping them)
+            oracle(R.stream, R.stream, "crash-free", "after op %d (%s):" % (j, op[0]), not R.lossy, expect_rotated=(R.floor(), R.bound), at_most=R.cap(),
+                   lossy=R.lossy, numbering=not R.refusals)
+            if sibling:
+                snums, sall = sibling_files()
+                sim.check("neighbour-log-intact", sall == R.sstream, "crash-free",
+                          lambda: "after op %d (%s): the second log of the directory (%r, files %s) holds %d bytes, %d were written to it" % (j, op[0], sname, snums, len(sall), len(R.sstream)))
     plan = list(F.log)
     total_auto = R.auto_rotations
+    refusals = R.refusals
     sim.event("points", len(plan), "auto_rotations", total_auto)
-    R.close_readers()
-    R.lf.close()
+    R.close_all()
     crash_in_rotate = 0
     for (n, opname, rel, size) in plan:
         j = next(i for i, m in enumerate(marks) if n <= m)
@@ -483,11 +692,11 @@ def _enumerate(sim, F, rot, keep, ops, extra, opened, restart="same"):
             F.reboot()
             wit = "%s@%s" % (ops[j][0], opname)
             ctx = "crash at point %d/%d (%s %s torn=%d) in op %d:" % (n, len(plan), opname, rel, torn, j)
-            oracle(done, done + pending, wit, ctx, not c_lossy, at_most=c_cap)
+            oracle(done, done + pending, wit, ctx, not c_lossy, at_most=c_cap, lossy=c_lossy)
             # the restarted process reconstructs the log - with the configuration it died with, or with another retention
             # count - and keeps writing
             F.arm()
-            nums, parts, cur = files()
+            nums, parts, cur, _ = files()
             on_disk = b"".join(parts) + cur
             keep2 = c_keep if restart == "same" else restart
             if keep2 != c_keep:
@@ -496,7 +705,7 @@ def _enumerate(sim, F, rot, keep, ops, extra, opened, restart="same"):
                     sim.probe("restart_retention_below_files_present")
             rotated2 = []
             with sim.guard("reconstruct-raised", wit):
-                lf2 = logfile.LogFile("app.log", d, rotateLength=c_rot, maxRotatedFiles=keep2)
+                lf2 = logfile.LogFile(name, d, rotateLength=c_rot, maxRotatedFiles=keep2)
                 real2 = lf2.rotate
 
                 def rotate2():
@@ -511,7 +720,7 @@ def _enumerate(sim, F, rot, keep, ops, extra, opened, restart="same"):
                     more += data
                 lf2.close()
             # stream as the disk saw it: whatever survived, then the new writes
-            nums2, parts2, cur2 = files()
+            nums2, parts2, cur2, _ = files()
             all2 = b"".join(parts2) + cur2
             whole = on_disk + more
             sim.check("post-crash-contiguous", whole.endswith(all2) and (keep2 is not None or all2 == whole), wit,
@@ -521,7 +730,7 @@ def _enumerate(sim, F, rot, keep, ops, extra, opened, restart="same"):
                 # a rotation completed under retention count keep2: whatever the dead process left (gaps in the numbering,
                 # more files than keep2), no more than keep2 rotated files remain
                 sim.probe("post_crash_rotation_under_retention")
-                sim.check("at-most-N-rotated", len(nums2) <= keep2, wit + "+restart",
+                sim.check("at-most-N-rotated", len(nums2) <= _most(keep2), wit + "+restart",
                           "%s after reconstruction with maxRotatedFiles=%s and %d rotation(s) there are %d rotated files: %s" % (ctx, keep2, len(rotated2), len(nums2), nums2))
             sim.step(1000000)
     # ---- errno family: ONE interposed call of the history fails with an OSError instead of killing the process.  The
@@ -536,6 +745,7 @@ def _enumerate(sim, F, rot, keep, ops, extra, opened, restart="same"):
             self.wit = wit
             self.segs = []             # (bytes, completed) in write order
             self.suspect = False       # an operation on the current LogFile object has raised
+            self.sib_suspect = False   # likewise for the second log of the directory
             self.raised = 0
             Runner.__init__(self, True)
 
@@ -560,6 +770,20 @@ def _enumerate(sim, F, rot, keep, ops, extra, opened, restart="same"):
                     Runner.construct(self)
             self.suspect = False
 
+        def construct_sibling(self):
+            f0 = self.fired()
+            try:
+                Runner.construct_sibling(self)
+            except (Violation, StepLimit):
+                raise
+            except Exception as e:
+                sim.check("errno-unfaulted-op-raised", self.fired() and not f0, self.wit,
+                          lambda: "LogFile() of the second log raised %s: %s although no fault was injected into it" % (type(e).__name__, e))
+                sim.probe("errno_sibling_constructor_raised")
+                with sim.guard("errno-unfaulted-op-raised", self.wit):
+                    Runner.construct_sibling(self)
+            self.sib_suspect = False
+
         def attempt(self, op, retried=False):
             kind, data = op
             f0 = self.fired()
@@ -572,12 +796,25 @@ def _enumerate(sim, F, rot, keep, ops, extra, opened, restart="same"):
                 raise
             except Exception as e:
                 hit = self.fired() and not f0
-                sim.check("errno-unfaulted-op-raised", hit or self.suspect, self.wit,
+                sim.check("errno-unfaulted-op-raised", hit or (self.sib_suspect if kind == "swrite" else self.suspect), self.wit,
                           lambda: "%s raised %s: %s on a LogFile no operation of which had failed before, with no fault injected into it"
                           % (kind, type(e).__name__, e))
                 sim.probe("errno_op_raised" if hit else "errno_later_op_raised")
                 sim.event("raised", kind, type(e).__name__)
             self.raised += 1
+            if kind == "swrite":
+                # the second log's own trouble: its application carries on with it or replaces it
+                self.sib_suspect = True
+                if sim.draw_bool(0.5, "sibling-reaction"):
+                    sim.probe("errno_app_reconstructs_sibling")
+                    try:
+                        self.sib.close()
+                    except (Violation, StepLimit):
+                        raise
+                    except Exception:
+                        pass
+                    self.construct_sibling()
+                return
             self.suspect = True
             if kind in WRITES:
                 self.segs.append((_enc(data), False))
@@ -598,9 +835,16 @@ def _enumerate(sim, F, rot, keep, ops, extra, opened, restart="same"):
                 self.attempt(op, True)
 
     def errno_oracle(app, ctx):
-        nums, parts, cur = files()
-        allb = b"".join(parts) + cur
-        lost = _match(app.segs, allb)
+        nums, parts, cur, tk = files()
+        allb = None
+        lost = None
+        for cand in _merges(parts, tk, app.lossy):
+            cand += cur
+            r = _match(app.segs, cand)
+            if allb is None or (r is not None and (lost is None or r < lost)):
+                allb, lost = cand, r
+            if lost == 0 or (lost is not None and app.lossy):
+                break
         sim.check("contiguous-suffix", lost is not None, app.wit,
                   lambda: "%s files %s+current hold %d bytes that are not a contiguous, ordered piece of the written stream (%d writes, %d of them raised): %r"
                   % (ctx, nums, len(allb), len(app.segs), sum(1 for _, c in app.segs if not c), allb[-80:]))
@@ -638,15 +882,48 @@ def _enumerate(sim, F, rot, keep, ops, extra, opened, restart="same"):
         if opname in ("rename", "remove"):
             errno_in_rotate += 1
         app.close_readers()
-        with sim.guard("errno-unfaulted-op-raised", wit):
+        try:
             app.lf.close()
+        except (Violation, StepLimit):
+            raise
+        except Exception as e:
+            # (a reopen() whose open failed leaves the object closed and without a file: its close() raises AttributeError)
+            sim.check("errno-unfaulted-op-raised", app.suspect, wit, lambda: "close() raised %s: %s on a LogFile no operation of which had failed" % (type(e).__name__, e))
+            sim.probe("errno_final_close_raised")
+        if app.sib is not None:
+            try:
+                app.sib.close()
+            except (Violation, StepLimit):
+                raise
+            except Exception as e:
+                sim.check("errno-unfaulted-op-raised", app.sib_suspect, wit, lambda: "close() of the second log raised %s: %s" % (type(e).__name__, e))
         errno_oracle(app, "%s after the final close:" % ctx0)
         sim.step(1000000)
+    if refusals:
+        sim.probe("history_with_rotation_attempt_while_moved_away")
     sim.nontrivial = total_auto > 0 and crash_in_rotate > 0 and errno_in_rotate > 0
     sim.state((rot, keep, min(total_auto, 3)))
 
 
 MUTANTS = [
+    "seeded C53-r6a-rotate-checks-current-file-after-shifting (rotate() tests os.access(self.path) only after the shift/prune loop) -> first MISSED (the current file was never away from "
+    "its path, so no rotation was ever refused); caught after the external-tool family: exactly-newest-N-kept:crash-free (quick, run ~30)",
+    "seeded C53-r6b-retention-count-zero-treated-as-unlimited ('keep and i >= keep') -> first MISSED (retention count 0 was never drawn); caught after 0 joined the drawn counts "
+    "(constructor, reconfig, restart): at-most-N-rotated:crash-free, at-most-N-rotated:w*@write+restart (quick, run 1)",
+    "rotate(): refusal guard removed / reduced to the directory test -> crash-free-raised:FileNotFoundError, errno-unfaulted-op-raised:errno:reopen@open(w+) (external-tool family)",
+    "reopen(): returns without re-opening when the path is gone -> exactly-newest-N-kept:crash-free (external-tool family)",
+    "listLogs(): glob '%s*' instead of '%s.*' (near-miss neighbours counted) -> crash-free-raised:FileNotFoundError, reconstruct-raised:swrite@open(w+):FileNotFoundError (neighbourhood family)",
+    "GENUINE DEFECT of the tree as first examined, REPAIRED in /repo 8fe469f (precondition let into GLOB_NAME_P = 0.2 of the runs; 0 only for dev-time comparison): "
+    "listLogs() passed the path to glob.glob() unescaped: LogFile('app.log', '.../logs[prod]', rotateLength=4), "
+    "five writes of 7 bytes -> only app.log.1 and app.log remain, 21 bytes lost without a retention count (every rotation renames the current file over .1). With the knob at 0.2: "
+    "nothing-lost-without-retention:crash-free / exactly-newest-N-kept:crash-free / post-crash-contiguous:w*@write. Repair: glob.glob('%s.*' % glob.escape(self.path))",
+    "GENUINE DEFECT of the tree as first examined, REPAIRED in /repo 8fe469f (precondition let into SIBLING_PREFIX_P = 0.4 of the sibling runs; 0 only for dev-time comparison): "
+    "listLogs() took the last dot-separated component of every '<path>.*' match as an identifier: with "
+    "access.log and access.log.ssl in one directory, access.log.ssl.1 counted as rotated file 1 of access.log and rotate() raised FileNotFoundError (rename access.log.1 -> .2) from every "
+    "write once a rotation was due. With the knob at 0.5: crash-free-raised:FileNotFoundError, reconstruct-raised:swrite@open(w+):FileNotFoundError. Repair: "
+    "int(name[len(self.path) + 1:]) instead of int(name.split('.')[-1]). With both repairs and both knobs raised the check passes",
+    "OBSERVATION (unchanged tree; ZERO_RETENTION_STRICT = False accepts it) maxRotatedFiles=0 keeps one rotated file (the one just rotated is never pruned); strict: "
+    "at-most-N-rotated:crash-free. Candidate fix: rotate() removes the current file instead of renaming it to .1 when maxRotatedFiles == 0 (check passes strict with it)",
     "seeded C53-r5b-retention-prunes-one-per-rotation (rotate() removes only the single oldest file when the count has reached the limit) -> first MISSED (every history kept one "
     "configuration, so the directory never held more rotated files than the retention count); caught after the reconfiguration family: at-most-N-rotated:crash-free, "
     "at-most-N-rotated:w*@open(w+)+restart (quick, run ~40)",
